@@ -62,6 +62,9 @@ def run(ctx: Ctx, rep: Report) -> None:
     circuit_extra.front_rear_spec(ctx, rep)
     from .permdir import permdir
     permdir(ctx, rep)
+    # operations are values shared by reference: nobody rewrites them
+    from . import circuit_edit
+    circuit_edit.opvalue(ctx, rep)
     # paired read views and the two directions of the grid walk
     from ..rules.mirror import rule_mirror
     c = 'bqskit/ir/circuit.py:Circuit.'
@@ -232,6 +235,29 @@ def remap(ctx: Ctx, rep: Report) -> None:
             n_inst += 1
             loc = [n for n in ast.walk(f.node) if isinstance(n, ast.Assign)
                    and any(norm(t) == 'op._location' for t in n.targets)]
+            # equally good (and what the tree does since fix 1a7443b): the
+            # grid slots receive a *new* Operation built with the moved
+            # location, the stored object is left alone
+            fresh = {
+                n.targets[0].id for n in ast.walk(f.node)
+                if isinstance(n, ast.Assign) and len(n.targets) == 1
+                and isinstance(n.targets[0], ast.Name)
+                and isinstance(n.value, ast.Call)
+                and norm(n.value.func) == 'Operation'
+                and len(n.value.args) >= 2
+                and norm(n.value.args[1]) != 'op.location'
+            }
+            loc += [
+                n for n in ast.walk(f.node) if isinstance(n, ast.Assign)
+                and any(isinstance(t, ast.Subscript) for t in n.targets)
+                and (
+                    (isinstance(n.value, ast.Name) and n.value.id in fresh)
+                    or (isinstance(n.value, ast.Call)
+                        and norm(n.value.func) == 'Operation'
+                        and len(n.value.args) >= 2
+                        and norm(n.value.args[1]) != 'op.location')
+                )
+            ]
             rep.count()
             rep.check(
                 bool(loc), R, qn, f.path, f.lineno,
